@@ -99,6 +99,24 @@ def write_file(file_name, content, **kwargs):
         raise GeomdlException("An error occurred: {0}".format(str(e)))
 
 
+def kv_options(*knotvectors):
+    """ Returns the shape construction options which keep the input knot vectors as they are.
+
+    The knot vectors which are not defined on [0, 1] would be normalized by the shapes using the default options. Then the
+    imported shape would not be evaluated at the same parameters as the exported one and the trim curves, which are defined
+    on the parametric space of the surface, would become invalid.
+
+    :param knotvectors: knot vectors read from the input
+    :return: keyword arguments for the shape constructors
+    :rtype: dict
+    """
+    try:
+        normalized = all(float(kv[0]) == 0.0 and float(kv[-1]) == 1.0 for kv in knotvectors)
+    except (IndexError, TypeError, ValueError):
+        normalized = True
+    return dict(normalize_kv=normalized)
+
+
 def import_surf_mesh(file_name):
     """ Generates a NURBS surface object from a mesh file.
 
@@ -119,7 +137,7 @@ def import_surf_mesh(file_name):
         raise TypeError("Input mesh '" + str(file_name) + "' must be 3-dimensional")
 
     # Create a NURBS surface instance and fill with the data read from mesh file
-    surf = shortcuts.generate_surface(rational=True)
+    surf = shortcuts.generate_surface(rational=True, **kv_options(content[3], content[4]))
 
     # 2nd line is the degrees
     surf.degree_u = int(content[1][0])
@@ -170,7 +188,7 @@ def import_vol_mesh(file_name):
         raise TypeError("Input mesh '" + str(file_name) + "' must be 3-dimensional")
 
     # Create a NURBS surface instance and fill with the data read from mesh file
-    vol = shortcuts.generate_volume(rational=True)
+    vol = shortcuts.generate_volume(rational=True, **kv_options(content[3], content[4], content[5]))
 
     # 2nd line is the degrees
     vol.degree_u = int(content[1][0])
@@ -208,7 +226,7 @@ def import_vol_mesh(file_name):
 
 
 def import_dict_crv(data):
-    shape = shortcuts.generate_curve(rational=True)
+    shape = shortcuts.generate_curve(rational=True, **kv_options(data.get('knotvector', [])))
 
     # Mandatory keys
     try:
@@ -333,7 +351,7 @@ def export_dict_multi_crv(obj):
 
 
 def import_dict_surf(data):
-    shape = shortcuts.generate_surface(rational=True)
+    shape = shortcuts.generate_surface(rational=True, **kv_options(data.get('knotvector_u', []), data.get('knotvector_v', [])))
 
     # Mandatory keys
     try:
@@ -422,7 +440,8 @@ def export_dict_surf(obj):
 
 
 def import_dict_vol(data):
-    shape = shortcuts.generate_volume(rational=True)
+    shape = shortcuts.generate_volume(rational=True, **kv_options(data.get('knotvector_u', []), data.get('knotvector_v', []),
+                                                                  data.get('knotvector_w', [])))
 
     # Mandatory keys
     try:
